@@ -340,6 +340,15 @@ fn case_orphans(out: &mut CaseOut, seed: u64, idx: u64) {
             planted.push(p);
         }
     }
+    // manifest of an open that crashed after writing its new manifest and before switching
+    // CURRENT to it: a number above the current manifest's (the next open may reuse the old one)
+    if rng.chance(0.6) {
+        let current = root.join(format!("MANIFEST-{}.manifest", probe.manifest_file_number));
+        let data = if rng.chance(0.5) { image.files.get(&current).cloned().unwrap_or_else(|| Arc::new(vec![])) } else { Arc::new(rng.bytes(90)) };
+        let p = root.join(format!("MANIFEST-{}.manifest", high + 5));
+        image.files.insert(p.clone(), data);
+        planted.push(p);
+    }
     // stale WAL (lower number than the live one)
     if probe.curr_wal_number > 1 && rng.chance(0.8) {
         let p = root.join("wal").join(format!("wal-{}.log", probe.curr_wal_number - 1));
